@@ -94,6 +94,33 @@ Definition models2d (dfs : list T) (sigs : list Sg) : list (T * Sg) :=
 Definition models3d (dfs : list (list T)) (sigs : list (list Sg)) : list (list (T * Sg)) :=
   map (fun i => map (fun j => (nth j (nth i dfs []) dT, nth j (nth i sigs []) dS))
                     (seq 0 (length (nth i sigs [])))) (seq 0 (length sigs)).
+
+(* The BycycleGroup OBJECT over its life (objs/fit.py:339-432): every call of fit assigns df_features and
+   builds a NEW container of models (one per position of the array just given); nothing of an earlier fit
+   - not its tables, not its models, not its shape - takes part.  A 2-D array gives flat lists, a 3-D
+   array nested ones. *)
+Inductive gfit :=
+| Fit2 (sigma : list nat) (spec : kwspec) (sigs : list Sg)                          (* 2-D array, axis=0 *)
+| Fit3 (ax : nat) (sigma : list nat) (spec : kwspec) (sigs : list (list Sg)) (n1 : nat).  (* ax: 0, 1, 2 = (0,1) *)
+Inductive gobj :=
+| Unfitted                                                         (* df_features = None, models = [] *)
+| Fitted2 (dfs : list T) (models : list (T * Sg))
+| Fitted3 (dfs : list (list T)) (models : list (list (T * Sg))).
+Definition fit3_tables (ax : nat) (sigma : list nat) (spec : kwspec) (sigs : list (list Sg)) (n1 : nat)
+  : list (list T) :=
+  match ax with
+  | 0 => group3d_axis0 sigma spec sigs
+  | 1 => group3d_axis1 sigma spec sigs n1
+  | _ => group3d_axis01 sigma spec sigs n1
+  end.
+Definition gobj_fit (o : gobj) (f : gfit) : gobj :=
+  match f with
+  | Fit2 sigma spec sigs =>
+    let dfs := group2d_axis0 sigma spec sigs in Fitted2 dfs (models2d dfs sigs)
+  | Fit3 ax sigma spec sigs n1 =>
+    let dfs := fit3_tables ax sigma spec sigs n1 in Fitted3 dfs (models3d dfs sigs)
+  end.
+Definition gobj_run (o : gobj) (fits : list gfit) : gobj := fold_left gobj_fit fits o.
 End Group.
 
 (* ------------------------------------------------------------------------------------------ *)
@@ -129,3 +156,26 @@ Definition run_group (g : gcase) : list (list (nat * nat * nat)) :=
 Definition triple_eqb (a b : nat * nat * nat) : bool :=
   let '(x, y, z) := a in let '(x', y', z') := b in Nat.eqb x x' && Nat.eqb y y' && Nat.eqb z z'.
 Definition bad_group := report run_group (list_eqb (list_eqb triple_eqb)).
+
+
+(* the same for BycycleGroup objects: a history of fits on ONE object; observed are df_features (placement
+   triples) and, for every model, the placement triple of the table it holds and the id of the signal it
+   holds (a 2-D array is written as one row) *)
+Definition fit_of_case (g : gcase) : @gfit nat nat :=
+  match g with
+  | G2 sigma kw n0 => Fit2 sigma (spec_of kw) (seq 0 n0)
+  | G3 ax sigma kw n0 n1 => Fit3 ax sigma (spec_of kw) (sig_ids n0 n1) n1
+  end.
+Definition gobs := (list (list (nat * nat * nat)) * list (list ((nat * nat * nat) * nat)))%type.
+Definition gobs_of (o : @gobj nat (nat * nat * nat)) : gobs :=
+  match o with
+  | Unfitted => ([], [])
+  | Fitted2 dfs ms => ([dfs], [ms])
+  | Fitted3 dfs ms => (dfs, ms)
+  end.
+Definition run_group_object (h : list gcase) : gobs :=
+  gobs_of (gobj_run id_cf id_epochs none_id 0 (0, 0, 0) Unfitted (map fit_of_case h)).
+Definition gobs_eqb (a b : gobs) : bool :=
+  list_eqb (list_eqb triple_eqb) (fst a) (fst b) &&
+  list_eqb (list_eqb (pair_eqb triple_eqb Nat.eqb)) (snd a) (snd b).
+Definition bad_group_object := report run_group_object gobs_eqb.
